@@ -64,6 +64,23 @@ def edits(x):
     return out
 
 
+def metrical_switch_family(phase):
+    """Longer sequences needed by the metrical-level logic (Cemgil best level, CML vs AML, Goto's track length): a
+    regular 10-beat reference; the estimate follows the beat for `a` beats, then the off-beat (midpoints), with one
+    off-beat estimate dropped at position `b` - so the annotated level has the longest continuous run while another
+    metrical variation collects more (fragmented) successes."""
+    base = Fr(5) + Fr(phase, 4)
+    ref = [base + Fr(k, 2) for k in range(10)]
+    mids = [(x + y) / 2 for x, y in zip(ref, ref[1:])]
+    out = []
+    for a in range(1, 9):
+        tail = mids[a:]
+        for b in range(len(tail) + 1):
+            est = ref[:a] + [m for i, m in enumerate(tail) if i != b]
+            out.append((tuple(float(x) for x in ref), tuple(float(x) for x in est)))
+    return out
+
+
 def pair_space(tier, phase):
     thorough = tier == "thorough"
     pts = lattice(phase, (0, 1, 2, 8, 9, 16, 24) if thorough else (0, 1, 2, 8, 9, 16))
@@ -78,6 +95,10 @@ def pair_space(tier, phase):
             if (ref, est) not in seen:
                 seen.add((ref, est))
                 states.append((ref, est))
+    for st in metrical_switch_family(phase):
+        if st not in seen:
+            seen.add(st)
+            states.append(st)
     return states
 
 
